@@ -347,12 +347,12 @@ LIT_ALPHABET = 'abAB.x1-_ \n\xe9' + '*?[]()|!+@{}~\\'
 
 
 def st_seq(max_budget=8, max_depth=3, max_alts=3, kinds='?*+@!', alphabet=LIT_ALPHABET, neg_exact_bias=True,
-           ranges=True, posix=True):
+           ranges=True, posix=True, set_alphabet='abAB.x1_\xe9]^!-['):
     """Hypothesis strategy for Seq ASTs."""
     from hypothesis import strategies as st
 
     litc = st.sampled_from(alphabet)
-    set_chars = st.sampled_from('abAB.x1_\xe9]^!-[')
+    set_chars = st.sampled_from(set_alphabet)
     items = [litc_item for litc_item in [set_chars.map(lambda c: ('c', c))]]
     if ranges:
         items.append(st.sampled_from([('r', 'a', 'c'), ('r', 'A', 'Z'), ('r', '0', '9'), ('r', 'a', 'a'), ('r', 'B', 'b'),
@@ -377,9 +377,9 @@ def st_seq(max_budget=8, max_depth=3, max_alts=3, kinds='?*+@!', alphabet=LIT_AL
     if neg_exact_bias and '!' in kinds:
         # a `!(...)` in C01's exact position: top level, negation-free alternatives, literal tail
         inner_kinds = kinds.replace('!', '')
-        inner = st_seq(max(2, max_budget // 2), max(1, max_depth - 1), max_alts, inner_kinds, alphabet, False, ranges, posix) \
+        inner = st_seq(max(2, max_budget // 2), max(1, max_depth - 1), max_alts, inner_kinds, alphabet, False, ranges, posix, set_alphabet) \
             if inner_kinds else st.lists(atom, max_size=3).map(tuple)
-        head = st_seq(max(1, max_budget // 2), max_depth, max_alts, inner_kinds, alphabet, False, ranges, posix) \
+        head = st_seq(max(1, max_budget // 2), max_depth, max_alts, inner_kinds, alphabet, False, ranges, posix, set_alphabet) \
             if inner_kinds else st.lists(atom, max_size=3).map(tuple)
         neg = st.tuples(st.one_of(st.just(()), head), st.lists(st.one_of(inner, st.just(())), min_size=1, max_size=max_alts),
                         st.lists(litc.map(lit), max_size=3)).map(
